@@ -76,7 +76,7 @@ for n in (0, 1, 2, 3, 5):
         if tname == 'int':
             pre.append(" and ".join('48 <= %s <= 57' % p for p in ps) or 'True')
         if tname == 'int_nondigit':
-            pre.append('(p0 < 48 or p0 > 57)' + (' and 48 <= p1 <= 57' if n > 1 else ''))
+            pre.append('(32 <= p0 < 48 or 57 < p0 <= 70)' + (' and 48 <= p1 <= 57' if n > 1 else ''))
         define(globals(), 'C20', 'stream_size%d_%s' % (n, tname), params,
                "return do_stream(%d, [%s], %s, [t0], cut)" % (n, ", ".join(ps), 'typ' if tcode is None else tcode), pre,
                tier='quick' if (n, tname) in QUICK_STREAM else 'thorough',
